@@ -9,6 +9,10 @@
    object handed to the reconciler and the answer of the API call it makes (if it makes one). No consistency
    between successive pod lists is assumed, so theorems over all op lists cover every pod/PDB/clock evolution.
    Time is Z nanoseconds (any origin); grace periods are Z seconds.
+   Not modelled: the window inside one Reconcile between reading Queue.items (mutex released) and acting on it —
+   a concurrent Add that tightens the deadline in that window is seen by the next reconcile only; integer
+   overflow of Duration arithmetic (grace periods >= 2^33 s) and float rounding of Duration.Seconds() for
+   differences >= 2^23 s; metrics, events and log output.
    Executable definitions and the specification predicates only; proofs are in C10/Proofs.v. *)
 From Coq Require Export ZArith List Bool String Lia.
 Export ListNotations.
